@@ -3,7 +3,6 @@ package parser
 import (
 	"errors"
 	"fmt"
-	"strconv"
 	"strings"
 	"time"
 
@@ -170,7 +169,15 @@ func parseGroup(node *yaml.Node, schema Schema, offsetLine, offsetColumn int, co
 				}
 				return group
 			}
-			group.Limit, _ = strconv.Atoi(nodeValue(entry.val))
+			// Decode the same way Prometheus does, it handles all YAML integer notations
+			// and fails if the value doesn't fit an int.
+			if err = entry.val.Decode(&group.Limit); err != nil {
+				group.Error = ParseError{
+					Line: entry.key.Line,
+					Err:  fmt.Errorf("invalid %s value: %s", entry.key.Value, entry.val.Value),
+				}
+				return group
+			}
 		case "labels":
 			if entry.val.ShortTag() != mapTag {
 				group.Error = ParseError{
